@@ -332,7 +332,7 @@ static void huge_stride_case(op_t op, MODULE_TYPE mt, int native, uint64_t N, un
   if (!case_begin(key, "N=%" PRIu64 " rep=%u", N, rep)) return;
   rng_t* r = crng();
   const MODULE* mod = get_module(N, mt, native);
-  static const uint64_t SL[] = {(1ull << 29), (1ull << 29) + 1, (1ull << 30) + 8, 3ull << 28};
+  static const uint64_t SL[] = {(1ull << 29), (1ull << 29) + 1, (1ull << 30) + 8, 3ull << 28, (1ull << 31) + 8, 3ull << 30, (1ull << 32) + 16};  // (index of the last limb in words: up to 2^33, beyond 32 bits)
   // which of the three vectors gets the huge stride rotates with rep
   const uint64_t big = SL[rep % ARRAY_LEN(SL)], rows = 3;
   const uint64_t slr = (rep % 3 == 0) ? big : N + 1, sla = (rep % 3 == 1) ? big : N, slb = (rep % 3 == 2) ? big : N + 2;
@@ -628,7 +628,7 @@ void run_C08(void) {
       }
   for (op_t op = OP_ZERO; op <= OP_AUTO; op++)
     for (int cfg = 0; cfg < 3; cfg++) {
-      for (unsigned rep = 0; rep < 6; rep++) huge_stride_case(op, cfg == 2 ? NTT120 : FFT64, cfg != 1, rep & 1 ? 64 : 8, rep);
+      for (unsigned rep = 0; rep < 21; rep++) huge_stride_case(op, cfg == 2 ? NTT120 : FFT64, cfg != 1, rep & 1 ? 64 : 8, rep);
       for (unsigned rep = 0; rep < 18; rep++) one_limb_stride_case(op, cfg == 2 ? NTT120 : FFT64, cfg != 1, rep % 3 == 0 ? 64 : (rep % 3 == 1 ? 8 : 2), rep);
     }
   // both inputs the same vector
